@@ -256,6 +256,7 @@ def run_leg(ck, binp, tier, replay=None):
     stats["byte_sweep_offsets"] = sw_offsets
     stats["unclean_tails_refused"] = stats["refused"] + sw_refused
     stats["model_mutants_rejected_by"] = spec_mutants
+    stats["violation_keys"] = dict(seen)
     stats["seconds"] = round(time.time() - t_leg, 1)
     ck.cov["fs"] = stats
     accepted = stats["bare_accepted_unclean_tail"] + sum(v["bare_accepted_unclean"] for v in sw_cov.values())
